@@ -299,7 +299,7 @@ func (f Union) remove(value any) (out any, changed bool) {
 	return
 }
 
-func (f Union) locate(pp Expr, data any, rest Expr, max int) (locs []Expr) {
+func (f Union) locate(pp Expr, data, root any, rest Expr, max int) (locs []Expr) {
 	var (
 		v   any
 		has bool
@@ -360,7 +360,7 @@ func (f Union) locate(pp Expr, data any, rest Expr, max int) (locs []Expr) {
 			if len(rest) == 0 { // last one
 				locs = locateAppendFrag(locs, pp, lf)
 			} else {
-				locs = locateContinueFrag(locs, append(pp, lf), v, rest, max)
+				locs = locateContinueFrag(locs, append(pp, lf), v, root, rest, max)
 			}
 			if 0 < max && max <= len(locs) {
 				break
